@@ -39,7 +39,8 @@ CLAIMS = {
         "weak-isospin tables == PDG; get_weight for EM/NC x six quarks x VV/AA/VA/AV x e-/e+ == PDG structure-function couplings (neutrino beams "
         "up to the helicity convention; conjugate beams related by P -> -P); propagator ratios == PDG; CC weights == 2 x the documented CKM "
         "partition; and the partially evaluated LO operator of every kind in ZM-VFNS nf=3..6 for EM/NC/CC and four projectiles is the parton "
-        "model (row q = weight x x conv(delta), row qbar = +/- it, zero elsewhere). NOT decided: numerical CKM input, the delta quadrature (C01/C03).",
+        "model (row q = weight x x conv(delta), row qbar = +/- it, zero elsewhere); in charged-current runs of every scheme the CKM masks reaching "
+        "the weights open exactly the massless quarks' groups or one massive quark's group. NOT decided: numerical CKM input, the delta quadrature (C01/C03).",
         "Trusted: CPython ast; yadsa partial evaluator; spec/ew.py (PDG review formulas transcribed independently of the code); "
         "docs/source/theory/fns.rst for the CKM partition; tree-level G_F MZ^2/(2 sqrt2 pi alpha) = 1/(4 s^2 c^2).",
         "DESIGN.md section 3, C02",
